@@ -50,6 +50,7 @@ type (
 type MacroParam struct{ Name, Type string }
 
 type Macro struct {
+	L1Only bool // representation-level predicate: true when seen from layer 2
 	Opaque bool
 	Name   string
 	Params []MacroParam
@@ -671,9 +672,14 @@ func ParseSpecFile(path string) (*Spec, error) {
 			case "define":
 				// define [opaque] name(p: T, ...): T = expr
 				opaque := false
+				l1only := false
 				if strings.HasPrefix(rest, "opaque ") {
 					opaque = true
 					rest = strings.TrimSpace(rest[7:])
+				}
+				if strings.HasPrefix(rest, "l1 ") {
+					l1only = true
+					rest = strings.TrimSpace(rest[3:])
 				}
 				i := strings.Index(rest, "(")
 				name := strings.TrimSpace(rest[:i])
@@ -686,7 +692,7 @@ func ParseSpecFile(path string) (*Spec, error) {
 				k := strings.Index(tail, "=")
 				ret := strings.TrimSpace(tail[1:k])
 				body := mustExpr(tail[k+1:], l.no)
-				sp.Macros[name] = &Macro{Name: name, Params: params, Ret: ret, Body: body, Opaque: opaque}
+				sp.Macros[name] = &Macro{Name: name, Params: params, Ret: ret, Body: body, Opaque: opaque, L1Only: l1only}
 			case "lemma", "axiom":
 				// lemma {tags} name(p: T, ...): expr
 				tags, _, r := splitTags(rest)
